@@ -402,8 +402,8 @@ def make_sites(t, model, port, hl, seed):
     # (1) link-file sites: every enumerated entry, those the model names a deviation for kept apart per deviation
     groups = {}
     for x in ents:
-        if x["e"]["sel"].endswith("/"):
-            continue            # a UMN link file cannot spell it: getLinkItem drops one trailing slash of Path=
+        if x["e"]["sel"].endswith("/") or x["e"]["sel"] != x["e"]["sel"].strip():
+            continue            # a UMN link file cannot spell it: getLinkItem strips blanks and one trailing slash of Path=
         groups.setdefault(",".join(sorted(x["dev"])) or "clean", []).append(x["e"])
     for g, es in sorted(groups.items()):
         rows = []
